@@ -186,7 +186,9 @@ def units(tier):
                 us.append(u)
     # history family: one object, every sequence of <= 3 generate / in-place-mutate events
     for kind in ("1d", "2d"):
-        us.append({"name": f"history:{kind}", "kind": "history", "object": kind, "fs": 0.0, "cost": 6})
+        for i in range(len(history_events(tier))):  # sharded by the first event
+            us.append({"name": f"history:{kind}:first{i}", "kind": "history", "object": kind, "first": i, "fs": 0.0,
+                       "cost": 3 if kind == "1d" else 1})
     rates, lengths, comps = dense_axes(tier)
     for rate in rates:
         kinds = [("2d", {"dgrid": "N8", "bins": [1]})]
@@ -550,6 +552,8 @@ def run_history(unit):
     nhist = 0
     for length in (1, 2, 3):
         for seq in itertools.product(events, repeat=length):
+            if seq[0] != events[unit["first"]]:
+                continue  # another shard
             if seq[-1][0] != "gen":
                 continue  # named restriction: a history ends with a generate (its prefixes cover the rest)
             nhist += 1
